@@ -990,10 +990,8 @@ pub fn run_hist_func(ctx: &Ctx, id: &str) {
     let prop = hist_prop(id);
     let n = ctx.tier.pick(3000u64, 200_000u64);
     // 3/4 in memory, 1/4 file backed with reopen (restart) steps
-    let mem = history_strategy(profile_for(id, ctx.tier, false));
-    run_prop(ctx, &prop, &mem, n * 3 / 4, workers());
-    let file = history_strategy(profile_for(id, ctx.tier, true));
-    run_prop(ctx, &prop, &file, n / 4, workers());
+    run_prop(ctx, &prop, || history_strategy(profile_for(id, ctx.tier, false)), n * 3 / 4, workers());
+    run_prop(ctx, &prop, || history_strategy(profile_for(id, ctx.tier, true)), n / 4, workers());
 }
 
 pub fn replay(id: &str, sub: &str, case: &serde_json::Value) -> Option<Result<Outcome, String>> {
@@ -1010,15 +1008,12 @@ pub fn replay(id: &str, sub: &str, case: &serde_json::Value) -> Option<Result<Ou
 
 pub fn run_c18_func(ctx: &Ctx) {
     let n = ctx.tier.pick(1500u64, 60_000u64);
-    let strat = history_strategy(profile_for("C18", ctx.tier, true));
-    run_prop(ctx, &C18Reopen, &strat, n, workers());
+    run_prop(ctx, &C18Reopen, || history_strategy(profile_for("C18", ctx.tier, true)), n, workers());
     let n2 = ctx.tier.pick(300u64, 20_000u64);
-    let s2 = olddb_strategy(ctx.tier.pick(40, 200));
-    run_prop(ctx, &C18OldSchema, &s2, n2, workers());
+    run_prop(ctx, &C18OldSchema, || olddb_strategy(ctx.tier.pick(40, 200)), n2, workers());
 }
 
 pub fn run_c20_func(ctx: &Ctx) {
     let n = ctx.tier.pick(3000u64, 200_000u64);
-    let strat = history_strategy(profile_for("C20", ctx.tier, false));
-    run_prop(ctx, &C20Prop, &strat, n, workers());
+    run_prop(ctx, &C20Prop, || history_strategy(profile_for("C20", ctx.tier, false)), n, workers());
 }
